@@ -19,7 +19,11 @@ use std::io::Write as _;
 use embassy_futures::select::{select, select4, select_slice, Either};
 use embassy_time::{Duration, Instant, Timer};
 
-use rs_matter::crypto::{test_only_crypto, Crypto, AEAD_KEY_ZEROED};
+use rs_matter::crypto::{test_only_crypto, CanonAeadKey, Crypto, AEAD_KEY_ZEROED};
+use rs_matter::fabric::GroupKeyMapping;
+use rs_matter::group_keys::{GroupEpochKeyEntry, GroupKeySet, KeySet};
+use rs_matter::transport::network::{Address, NetworkSend};
+use rs_matter::transport::session::derive_group_session_id;
 use rs_matter::error::{Error, ErrorCode};
 use rs_matter::sc::{sc_write, SCStatusCodes};
 use rs_matter::transport::exchange::{Exchange, MessageMeta};
@@ -189,6 +193,84 @@ fn run_p(f: &[&str]) -> String {
     steps::run_p(f)
 }
 
+// ------------------------------------------------------------------ group messages, slow network
+
+pub const GROUP_ID: u16 = 7;
+const GROUP_EPOCH_KEY: [u8; 16] = [0x5a; 16];
+
+fn canon_key(bytes: &[u8; 16]) -> CanonAeadKey {
+    let mut k = CanonAeadKey::new();
+    k.load_from_array(bytes);
+    k
+}
+
+/// operational group key as the device derives it (compressed fabric id of the empty test fabric = 0)
+fn group_op_key<C: Crypto>(crypto: &C) -> [u8; 16] {
+    let mut ks = KeySet::new();
+    ks.update(crypto, canon_key(&GROUP_EPOCH_KEY).reference(), &0u64).unwrap();
+    let mut out = [0u8; 16];
+    out.copy_from_slice(ks.op_key().access());
+    out
+}
+
+pub fn group_sid<C: Crypto>(crypto: &C) -> u16 {
+    derive_group_session_id(crypto, canon_key(&group_op_key(crypto)).reference()).unwrap()
+}
+
+pub fn install_group(matter: &Matter<'_>) {
+    matter.with_state(|state| {
+        let fabric = state.fabrics.fabric_mut(NonZeroU8::new(1).unwrap()).unwrap();
+        let mut epoch_keys = rs_matter::utils::storage::Vec::new();
+        epoch_keys
+            .push(GroupEpochKeyEntry { epoch_key: canon_key(&GROUP_EPOCH_KEY), epoch_start_time: 0 })
+            .map_err(|_| ())
+            .unwrap();
+        fabric.groups_mut().key_set_add(GroupKeySet { group_key_set_id: 100, group_key_security_policy: 0, epoch_keys }).unwrap();
+        fabric.groups_mut().key_map_add(GroupKeyMapping { group_id: GROUP_ID, group_key_set_id: 100 }).unwrap();
+    });
+}
+
+/// a groupcast data message from the ghost (source node id in the clear, group flag, DSIZ = group)
+#[allow(clippy::too_many_arguments)]
+pub fn craft_group<C: Crypto>(crypto: C, ctr: u32, exid: u16, init: bool, rel: bool, proto_id: u16, opcode: u8, payload: &[u8]) -> Vec<u8> {
+    let key = canon_key(&group_op_key(&crypto));
+    let mut hdr = PacketHdr::new();
+    hdr.plain.sess_id = group_sid(&crypto);
+    hdr.plain.ctr = ctr;
+    hdr.plain.set_group_session(true);
+    hdr.plain.set_src_nodeid(Some(G_NODE));
+    hdr.plain.set_dst_groupcast_nodeid(Some(GROUP_ID));
+    hdr.proto.exch_id = exid;
+    if init {
+        hdr.proto.set_initiator();
+    }
+    if rel {
+        hdr.proto.set_reliable();
+    }
+    hdr.proto.proto_id = proto_id;
+    hdr.proto.proto_opcode = opcode;
+    let mut buf = [0u8; 1280];
+    let mut wb = WriteBuf::new_with(&mut buf, PacketHdr::HDR_RESERVE, PacketHdr::HDR_RESERVE);
+    wb.append(payload).unwrap();
+    hdr.encode(crypto, Some(key.reference()), G_NODE, &mut wb).unwrap();
+    wb.as_slice().to_vec()
+}
+
+/// a network whose every send takes `ms` (a slow radio): the TX buffer stays locked that long
+struct SlowSend<S> {
+    inner: S,
+    ms: u64,
+}
+
+impl<S: NetworkSend> NetworkSend for SlowSend<S> {
+    async fn send_to(&mut self, data: &[u8], addr: Address) -> Result<(), Error> {
+        if self.ms > 0 {
+            Timer::after(Duration::from_millis(self.ms)).await;
+        }
+        self.inner.send_to(data, addr).await
+    }
+}
+
 // ------------------------------------------------------------------ E: end to end
 
 #[derive(Clone, Copy)]
@@ -201,6 +283,8 @@ struct HandlerCfg {
 enum Op {
     /// ghost datagram on ghost session `sess`
     Ghost { sess: u8, exid: u16, init: bool, rel: bool, op: char, beh: u8, arg: u16 },
+    /// groupcast data message of the ghost (real group key installed on the device)
+    Group { exid: u16, rel: bool, beh: u8, arg: u16 },
     /// ghost acknowledges the last message the device sent on that exchange
     GhostAck { sess: u8, exid: u16, init: bool },
     Wait(u32),
@@ -213,11 +297,12 @@ enum Op {
 struct ECase {
     handlers: Vec<HandlerCfg>,
     ghost_autoack: bool,
+    slow_ms: u64,
     script: Vec<Op>,
 }
 
 fn parse_e(f: &[&str]) -> ECase {
-    let mut c = ECase { handlers: vec![], ghost_autoack: true, script: vec![] };
+    let mut c = ECase { handlers: vec![], ghost_autoack: true, slow_ms: 0, script: vec![] };
     for kv in &f[2..] {
         let Some((k, v)) = kv.split_once('=') else { continue };
         match k {
@@ -227,6 +312,7 @@ fn parse_e(f: &[&str]) -> ECase {
                 }
             }
             "ga" => c.ghost_autoack = v == "1",
+            "slow" => c.slow_ms = v.parse().unwrap_or(0),
             "s" => {
                 for o in v.split(';').filter(|x| !x.is_empty()) {
                     let p: Vec<&str> = o[1..].split(':').collect();
@@ -240,6 +326,7 @@ fn parse_e(f: &[&str]) -> ECase {
                             beh: p[5].parse().unwrap(),
                             arg: p[6].parse().unwrap(),
                         },
+                        b'x' => Op::Group { exid: p[0].parse().unwrap(), rel: p[1] == "1", beh: p[2].parse().unwrap(), arg: p[3].parse().unwrap() },
                         b'a' => Op::GhostAck { sess: p[0].parse().unwrap(), exid: p[1].parse().unwrap(), init: p[2] == "i" },
                         b'w' => Op::Wait(p[0].parse().unwrap()),
                         b'p' => Op::ProbeA(p[0].parse().unwrap(), 1),
@@ -292,9 +379,12 @@ fn parse_payload(p: &[u8]) -> Option<Parsed> {
 }
 
 /// local session id of the device's session number `sess` (0 = the controller's, 1/2 = ghost sessions)
+static GROUP_SID: std::sync::atomic::AtomicU16 = std::sync::atomic::AtomicU16::new(0);
+
 fn local_sess_id(sess: u8) -> u16 {
     match sess {
         0 => 2,
+        9 => GROUP_SID.load(std::sync::atomic::Ordering::Relaxed),
         n => 10 + n as u16,
     }
 }
@@ -385,6 +475,11 @@ async fn behave(matter: &Matter<'_>, mut ex: Exchange<'_>, log: &DevLog) -> Resu
             Timer::after(Duration::from_millis(p.arg as u64)).await;
             Ok(())
         }
+        7 => {
+            // wait, then answer with an unreliable echo (nobody retransmits it)
+            Timer::after(Duration::from_millis(p.arg as u64)).await;
+            ex.send(MessageMeta::new(PROTO, 2, false), &raw).await
+        }
         _ => Ok(()),
     }
 }
@@ -418,13 +513,18 @@ fn run_e(case: &ECase) -> String {
     for n in 1..=2u16 {
         e2e::preset_case_session(&matter_b, &crypto, B_NODE, G_NODE, 10 + n, 20 + n, e2e::node_addr(G), 1, Default::default()).unwrap();
     }
+    install_group(&matter_b);
+    GROUP_SID.store(group_sid(&crypto), std::sync::atomic::Ordering::Relaxed);
     let (a_tx, a_rx) = net.attach(A);
     let (b_tx, b_rx) = net.attach(B);
+    let b_tx = SlowSend { inner: b_tx, ms: case.slow_ms };
     let (_g_tx, _g_rx) = net.attach(G);
     let log = DevLog::default();
     let probes: RefCell<Vec<String>> = RefCell::new(Vec::new());
     let final_tables: RefCell<String> = RefCell::new(String::new());
+    let final_shape: RefCell<String> = RefCell::new(String::new());
     let ghost_ctr: [Cell<u32>; 3] = [Cell::new(0), Cell::new(1000), Cell::new(5000)];
+    let group_ctr = Cell::new(9000u32);
     let handlers = case.handlers.clone();
     let autoack = case.ghost_autoack;
 
@@ -511,6 +611,12 @@ fn run_e(case: &ECase) -> String {
                     Op::Ghost { sess, exid, init, rel, op, beh, arg } => {
                         let p = mk_payload(beh, i as u32, sess, exid, init, arg);
                         ghost_send(sess, exid, init, rel, None, op, &p);
+                    }
+                    Op::Group { exid, rel, beh, arg } => {
+                        group_ctr.set(group_ctr.get() + 1);
+                        let p = mk_payload(beh, i as u32, 9, exid, true, arg);
+                        let pkt = craft_group(&crypto, group_ctr.get(), exid, true, rel, PROTO, 1, &p);
+                        net.inject(G, B, &pkt);
                     }
                     Op::GhostAck { sess, exid, init } => {
                         let ack = last_dev_ctr(sess, exid);
@@ -603,6 +709,28 @@ fn run_e(case: &ECase) -> String {
             });
             t.sort();
             *final_tables.borrow_mut() = t.join("");
+            // coarse, run-independent view for the comparison with the model's prediction: the
+            // controller's exchange ids (random) print as 65535, the group session as L9
+            let gsid = GROUP_SID.load(std::sync::atomic::Ordering::Relaxed);
+            let mut sh: Vec<String> = matter_b.with_state(|st| {
+                st.verif_sessions()
+                    .iter()
+                    .map(|s| {
+                        let snap = s.verif_snapshot();
+                        let l = if snap.local_sess_id == gsid { 9 } else { snap.local_sess_id };
+                        let n = table_len(&snap);
+                        let slots: Vec<String> = (0..n)
+                            .map(|i| match snap.exchanges.iter().find(|e| e.index == i) {
+                                Some(e) => format!("{}/{}/{}", if l == 2 { 65535 } else { e.exch_id }, e.role, e.state),
+                                None => "-".to_string(),
+                            })
+                            .collect();
+                        format!("L{}[{}]", l, slots.join(","))
+                    })
+                    .collect()
+            });
+            sh.sort();
+            *final_shape.borrow_mut() = sh.join("");
             Ok::<(), Error>(())
         };
         match select4(pin!(nodes), pin!(pool), pin!(select(pin!(script), pin!(acker))), pin!(Timer::after(Duration::from_secs(60)))).await {
@@ -627,6 +755,18 @@ fn run_e(case: &ECase) -> String {
         *out.entry(k).or_insert(0) += 1;
     }
     let outs: Vec<String> = out.iter().map(|(k, v)| format!("{}={}", k, v)).collect();
+    // tags of the ghost's messages that the device echoed back
+    let mut replies: Vec<u32> = net
+        .tap()
+        .iter()
+        .filter(|t| t.src == B && t.dst == G)
+        .filter_map(|t| decode(&crypto, &t.bytes, B_NODE))
+        .filter(|(h, _)| h.proto.proto_id == PROTO && h.proto.proto_opcode == 2)
+        .filter_map(|(_, pl)| parse_payload(&pl).map(|p| p.tag))
+        .collect();
+    replies.sort();
+    replies.dedup();
+    let replies: Vec<String> = replies.iter().map(|t| t.to_string()).collect();
     // every reliable opener of the ghost must have been answered on its exchange (acknowledgement,
     // reply) or its session told to close / not found
     let dev_out: Vec<(u16, u16, String)> = net
@@ -649,11 +789,35 @@ fn run_e(case: &ECase) -> String {
             }
         }
     }
+    // what the model is asked to predict (checks/c10.py compares it for the scenarios marked det=1)
+    let gsid = GROUP_SID.load(std::sync::atomic::Ordering::Relaxed);
+    let mut cd: Vec<(u32, String)> = log
+        .deliveries
+        .borrow()
+        .iter()
+        .map(|d| {
+            let hs = if d.4 == gsid { 9 } else { d.4 };
+            (d.0, format!("{}>{}:{}:{}", d.0, hs, if hs == 2 { 65535 } else { d.5 }, d.6))
+        })
+        .collect();
+    cd.sort();
+    let pclass: Vec<String> = probes.borrow().iter().map(|p| p.split(':').next().unwrap_or("").to_string()).collect();
+    let pred = format!(
+        "{}/{}/{}/{}/{}/{}",
+        pclass.join(","),
+        cd.iter().map(|x| x.1.clone()).collect::<Vec<_>>().join(","),
+        replies.join(","),
+        log.accepted_dropped.get(),
+        unacked,
+        final_shape.borrow()
+    );
     format!(
-        "{} probes={} deliv={} xdrop={} unacked={} tables={} | out={}",
+        "{} pred={} probes={} deliv={} replies={} xdrop={} unacked={} tables={} | out={}",
         outcome,
+        pred,
         probes.borrow().join(","),
         deliv.join(","),
+        replies.join(","),
         log.accepted_dropped.get(),
         unacked,
         tables.join(""),
@@ -689,10 +853,32 @@ fn main() {
         Some("run") => {
             rsm_harness::silence_panics();
             let text = std::fs::read_to_string(&args[2]).unwrap();
+            // a transport that spins inside one poll never reaches the in-case timeout: watch from outside
+            let current: std::sync::Arc<std::sync::Mutex<Option<(String, std::time::Instant)>>> = Default::default();
+            let partial: std::sync::Arc<std::sync::Mutex<String>> = Default::default();
+            {
+                let current = current.clone();
+                let partial = partial.clone();
+                std::thread::spawn(move || loop {
+                    std::thread::sleep(std::time::Duration::from_millis(500));
+                    let stuck = current.lock().unwrap().as_ref().filter(|(_, t)| t.elapsed().as_secs() > 90).map(|(k, _)| k.clone());
+                    if let Some(key) = stuck {
+                        print!("{}{} spin\n", partial.lock().unwrap(), key);
+                        std::io::stdout().flush().unwrap();
+                        std::process::exit(0);
+                    }
+                });
+            }
             let mut out = String::new();
             for line in text.lines() {
+                let f: Vec<&str> = line.split(' ').collect();
+                if f.len() > 1 {
+                    *current.lock().unwrap() = Some((format!("{} {}", f[0], f[1]), std::time::Instant::now()));
+                }
                 run_line(line, &mut out);
+                *partial.lock().unwrap() = out.clone();
             }
+            *current.lock().unwrap() = None;
             print!("{}", out);
         }
         _ => {
